@@ -1,11 +1,12 @@
 """C10 — retries: at most r+1 attempts, only after timeouts, same result."""
 import itertools, random
 import vlib, netcases
-from props import netprops
+from props import netprops, malformed
 
 LEVEL = "proof"
 RULE = ("for valid SPEC-generated exchanges (Valve: info / players / rules units, 0-3 challenge rounds each), every "
-        "per-attempt outcome vector over {S silent, F send fault, M malformed, V valid} of length <= r+2 (r in 0..3; quick: "
+        "per-attempt outcome vector over {S silent, F send fault, M malformed (two garbage bytes, and on part of the bases also an empty datagram, "
+        "one byte, a bare header), V valid} of length <= r+2 (r in 0..3; quick: "
         "all vectors on a few bases, thorough: on many) is injected at each unit — for units that start with a handshake or challenge "
         "round (Valve and the games on it, GameSpy 3) both at the first exchange of an attempt and at its last one, after the earlier "
         "ones were answered; and recovering vectors at two or three units of one query at once (each unit has its own r+1 tries); attempts are counted on the wire "
@@ -83,6 +84,17 @@ def run(rep, tier, seed, replay=None):
                             req = fmod.c10_plan_request(b, unit, v, r)
                             if req:
                                 plan_requests.append(f"{cid} {req}")
+                        # the same vector with other malformed replies (empty datagram, one byte, a bare header): a reply
+                        # that is not a valid answer is never retried, whichever it is
+                        if "M" in v and (bi < 2 or tier == "thorough"):
+                            for mi, mal in enumerate(malformed.VARIANTS):
+                                malformed.CURRENT = mal
+                                try:
+                                    cid2 = f"{cid}e{mi}"
+                                    cases.append(fmod.c10_build(b, unit, v, r, cid2))
+                                    meta[cid2] = (b, unit, v, r, fmod)
+                                finally:
+                                    malformed.CURRENT = malformed.DEFAULT
 
     # the same cases as the SPEC's plan scripts (the scripts the whole-query theorems C10_<family>_query_* speak about):
     # the line built here must BE the line the SPEC builds, and carries the prescribed outcome and sends
